@@ -4,8 +4,9 @@
 // Discovery/Helium.v.
 //
 // Time discipline.  helium's ticker fires at T0+k*I (I = push interval; T0 is
-// measured per run with a throw-away subscriber that receives the first tick
-// and is unsubscribed again before the script starts).  Script actions run one per slot inside the
+// measured per run with a throw-away subscriber that receives two consecutive
+// ticks -- a run is invalid unless they are one interval apart -- and is
+// unsubscribed again before the script starts).  Script actions run one per slot inside the
 // window [T0+k*I+w0, T0+k*I+w0+n*slot) which stays clear of the ticks; AWait is
 // the only action that spans a tick (exactly one).  After each slot the
 // harness snapshots, per subscriber, the messages received during the slot.
@@ -121,7 +122,8 @@ type prefixKV struct {
 	once     sync.Once
 	preGet   func() // runs inside the first Get: ServiceStatusStream has its watch by then
 	onceW    sync.Once
-	preWatch func() // runs inside the first Watch call, before the watch is requested
+	preWatch func()        // runs inside the first Watch call, before the watch is requested
+	gotDone  chan struct{} // closed when the first Get has returned
 }
 
 func (k *prefixKV) Watch(ctx context.Context, key string, opts ...clientv3.OpOption) clientv3.WatchChan {
@@ -133,12 +135,18 @@ func (k *prefixKV) Watch(ctx context.Context, key string, opts ...clientv3.OpOpt
 	return k.KV.Watch(ctx, k.p+key, opts...)
 }
 func (k *prefixKV) Get(ctx context.Context, key string, opts ...clientv3.OpOption) (*clientv3.GetResponse, error) {
+	first := false
 	k.once.Do(func() {
+		first = true
 		if k.preGet != nil {
 			k.preGet()
 		}
 	})
-	return k.KV.Get(ctx, k.p+key, opts...)
+	r, err := k.KV.Get(ctx, k.p+key, opts...)
+	if first && k.gotDone != nil {
+		close(k.gotDone)
+	}
+	return r, err
 }
 func (k *prefixKV) StartEphemeral(ctx context.Context, path string, heartbeat time.Duration) (<-chan struct{}, func(), error) {
 	return k.KV.StartEphemeral(ctx, k.p+path, heartbeat)
@@ -307,6 +315,7 @@ func runScript(sc script, mercury *etcdv3.Mercury, raw *clientv3.Client) (res re
 			kvop(put(k))
 		}
 		if pk, ok := mercury.KV.(*prefixKV); ok {
+			pk.gotDone = make(chan struct{})
 			pk.preGet = func() {
 				for _, a := range sc.Between {
 					kvop(a)
@@ -328,14 +337,33 @@ func runScript(sc script, mercury *etcdv3.Mercury, raw *clientv3.Client) (res re
 		// some time after New returns): a throw-away subscriber, gone again before the
 		// script starts, receives its first message from the first tick.
 		if sc.Etcd {
-			time.Sleep(800 * time.Millisecond) // the stream's initial list(s) are consumed first
+			// the stream's start-up (Watch, Get, replayed changes) must be over and
+			// consumed before the first message can be taken for a tick
+			select {
+			case <-mercury.KV.(*prefixKV).gotDone:
+			case <-time.After(20 * time.Second):
+				res.Late = true
+			}
+			time.Sleep(1200 * time.Millisecond)
 		}
 		cctx, ccancel := context.WithCancel(root)
 		cid, cch := h.Subscribe(cctx)
+		// two consecutive messages one interval apart: only ticks are spaced like that
+		var t1 time.Time
 		select {
 		case <-cch:
-			t0 = time.Now().Add(-interval) // ticks at t0 + k*interval, k >= 1
-			tickSeen = true
+			t1 = time.Now()
+			select {
+			case <-cch:
+				t2 := time.Now()
+				if d := t2.Sub(t1) - interval; d > 200*time.Millisecond || d < -200*time.Millisecond {
+					res.Late = true
+				}
+				t0 = t2.Add(-2 * interval) // ticks at t0 + k*interval; two of them are gone
+				tickSeen = true
+			case <-time.After(interval + 1500*time.Millisecond):
+				res.Late = true
+			}
 		case <-time.After(interval + 1500*time.Millisecond):
 			res.Late = true
 		}
@@ -371,7 +399,7 @@ func runScript(sc script, mercury *etcdv3.Mercury, raw *clientv3.Client) (res re
 
 	k, m := 0, 0 // current interval, next slot in it
 	if tickSeen {
-		k = 1 // the calibration consumed tick 1; the script starts in the interval after it
+		k = 2 // the calibration consumed ticks 1 and 2; the script starts in the interval after them
 	}
 	snapshot := func(a action) {
 		got := make([][][]int, len(subs))
